@@ -129,6 +129,17 @@ func genC11(e *emitter, r *rng, thorough bool) {
 		nk = 30
 	}
 	keys := keyPool(r, nk)
+	// several secrets held across calls (different peers, the same peer twice, both directions)
+	for i := 0; i+2 < len(keys); i++ {
+		var items []string
+		for j := 0; j < 5; j++ {
+			d := keys[(i+j)%len(keys)]
+			q := mulG(keys[(i+2*j+1)%len(keys)])
+			items = append(items, nhx(d)+":"+nhx(q.x)+":"+nhx(q.y))
+		}
+		items = append(items, items[0])
+		e.emit("ecdh.seq", "ecdh.seq "+strings.Join(items, ";"))
+	}
 	// ECDH agreement both ways
 	for i := 0; i+1 < len(keys); i++ {
 		a, b := keys[i], keys[i+1]
